@@ -130,6 +130,38 @@ func evalC04(c c04Case, o *Obs) error {
 				o.Class("C04:node-with-two-leading-zero-bytes")
 			}
 		}
+		// one key object derives a normal child first and a hardened child afterwards (and the other way round on a
+		// second object): the order of earlier derivations must not matter
+		if r.Depth < 255 {
+			for round, order := range [][2]uint32{{7, 0x80000007}, {0x80000007, 7}} {
+				obj := k
+				if round == 1 {
+					if obj, err = hdkeychain.NewKeyFromString(k.String()); err != nil {
+						return fmt.Errorf("%s: re-parse failed: %v", where, err)
+					}
+				}
+				for _, idx := range order {
+					got, err := obj.Child(idx)
+					want, rerr := r.child(idx)
+					if rerr != nil {
+						continue
+					}
+					if err != nil || got.String() != want.String() {
+						return fmt.Errorf("%s: Child(%d) derived from an object that had derived %v before = %v (err %v), BIP32 gives %s", where, idx, order, got, err, want.String())
+					}
+				}
+			}
+		}
+		// a neutered key handed out earlier may be changed or erased by its owner; later Neuter() calls are unaffected
+		n.SetNet(nets[(ni+1)%len(nets)].Params)
+		n.Zero()
+		if n2, err := k.Neuter(); err != nil {
+			return fmt.Errorf("%s: second Neuter failed: %v", where, err)
+		} else if err := compareNode(n2, rn, ni, where+" neutered again after the first neutered key was re-netted and zeroed"); err != nil {
+			return err
+		} else {
+			n = n2
+		}
 		if step == len(c.Path) {
 			break
 		}
